@@ -123,10 +123,14 @@ class Model():
     def build_code(self):
         """Define the Python code for all cells in the dict of cells."""
 
+        # A name bound to a range stands for the key of that range in
+        # `self.ranges` (the `address` of an XLRange is its matrix of cells).
+        range_keys = {id(rng): key for key, rng in self.ranges.items()}
+
         for cell in self.cells:
             if self.cells[cell].formula is not None:
                 defined_names = {
-                    name: defn.address
+                    name: range_keys.get(id(defn), defn.address)
                     for name, defn in self.defined_names.items()}
                 self.cells[cell].formula.ast = parser.FormulaParser().parse(
                     self.cells[cell].formula.formula, defined_names)
